@@ -187,9 +187,15 @@ def duration_dispatch(prog, rep):
         is_real = (f"isinstance({p}, numbers.Real)", True) in s.opaque
         w = [a for a in s.state.vals if a == "self.duration" or a == "self[duration]" or a.startswith("self")]
         stored = None
+        # what is stored, as an expression over the parameter as it was given (re-bindings along the path substituted)
+        from ..normalize import _subst_names
+
+        env_ = {}
         for n in s.stmts:
+            if isinstance(n, ast.Assign) and len(n.targets) == 1 and isinstance(n.targets[0], ast.Name):
+                env_[n.targets[0].id] = _subst_names(n.value, env_)
             if isinstance(n, ast.Assign) and norm(n.targets[0]) == "self['duration']":
-                stored = norm(n.value)
+                stored = norm(_subst_names(n.value, env_))
         if is_td:
             seen["td"] = True
             rep.check(stored == p and s.kind == "return", "DURATION", fi.short, "timedelta branch", "stored as is", f"a timedelta is stored as `{stored}`", fi.loc())
